@@ -684,12 +684,10 @@ def suppress(x, tol=1e-8, clip=True):
     from numpy import asarray, abs
     x = asarray(list(x))
     mask = abs(x) < tol
-    if not clip:
+    if not clip and x[mask].any() and not mask.all(): # something to spread
         # preserve sum by spreading suppressed values to the non-zero elements
-        spread = sum(x[mask])/(len(mask)-sum(mask))
-        if x.dtype.kind in 'iub' and not mask.all() and spread % 1:
-            x = x.astype(float) # (the spread is not an integer)
-        x[mask==False] = (x + spread)[mask==False]
+        if x.dtype.kind in 'iub': x = x.astype(float) # (the spread is not an integer)
+        x[mask==False] = (x + sum(x[mask])/(len(mask)-sum(mask)))[mask==False]
     x[mask] = 0.0
     return x.tolist()
 
